@@ -81,3 +81,13 @@ CALL_SCRIPTS = {
 }
 for _v in STORE_VERBS + ("cas",):
     CALL_SCRIPTS[_v] = [(1, (r,)) for r in STORE_REPLIES[_v]]
+
+# thorough tier: the same obligations on larger batches (three keys, more reply combinations)
+_V3, _V3C = b"VALUE k3 0 3", b"VALUE k3 0 3 5"
+CALL_SCRIPTS_THOROUGH = {
+    "get_many": [(3, (b"END",)), (3, (_V3, _D, _V1, _D, b"END")), (3, (_V2, _D, _V3, _D, _V1, _D, b"END"))],
+    "gets_many": [(3, (b"END",)), (3, (_V3C, _D, _V1C, _D, b"END")), (3, (_V2C, _D, _V3C, _D, _V1C, _D, b"END"))],
+    "set_many": [(3, (b"STORED", b"NOT_STORED", b"STORED")), (3, (b"NOT_STORED", b"NOT_STORED", b"NOT_STORED"))],
+    "delete_many": [(3, (b"DELETED", b"NOT_FOUND", b"DELETED"))],
+    "stats": [(0, (b"STAT pid 1", b"STAT uptime 2", b"STAT curr_items 3", b"STAT version 1.6.21", b"END"))],
+}
